@@ -77,23 +77,23 @@ def build_operands(tier, rng):
 
 
 def admissible(site, val, seq):
-    if site["shape"] == "annint":
-        return type(val) is int          # declared domain of `x: int`
+    if site["shape"] == "pyint":
+        return type(val) in (int, bool)  # y = int(x): keep to operands int() accepts without rounding
     if seq and site["op"] == "Multiply" and site["ckind"] == "int" and abs(site["cv"][1]) > 1000:
         return False                     # sequence repetition: size cap
     return True
 
 
-def replay_real(tier, rng, rep, cov, sites=None, nmod=None, prefix="c02m"):
+def replay_real(tier, rng, rep, cov, sites=None, nmod=None, prefix="c02m", cflags=(), config="default"):
     P = L.REAL
     sites = sites if sites is not None else L.real_sites(tier)
     nmod = nmod or (4 if tier == "quick" else 8)
     mods = L.gen_modules(sites, nmod, prefix)
-    builds = core.build_many([core.BuildSpec(n, src, kind="py") for n, src in mods], jobs=min(nmod, 8))
+    builds = core.build_many([core.BuildSpec(n, src, kind="py", cflags=list(cflags)) for n, src in mods], jobs=min(nmod, 8))
     bymod = {b.name: b for b in builds}
     for b in builds:
         if not b.ok:
-            rep.disagree({"shape": "build", "module": b.name}, "build-failed", {"errors": b.errors[-2500:]})
+            rep.disagree({"shape": "build", "module": b.name, "config": config}, "build-failed", {"errors": b.errors[-2500:]})
     # B3: which helper did the real compiler select?
     sel = {"agree": 0, "generic-where-fast-expected": [], "n": 0}
     for b in builds:
@@ -112,13 +112,14 @@ def replay_real(tier, rng, rep, cov, sites=None, nmod=None, prefix="c02m"):
             elif fams == ["generic"] or not fams:
                 sel["generic-where-fast-expected"].append(L.site_desc(s))
             else:
-                rep.disagree(dict(L.site_desc(s), shape_kind="selection"), "helper-outside-proven-range",
+                rep.disagree(dict(L.site_desc(s), shape_kind="selection", config=config), "helper-outside-proven-range",
                              {"site": L.site_desc(s), "helpers_in_generated_c": s["helpers"], "spec_selects": s["family"]})
     cov["selection"] = {"sites": sel["n"], "agree": sel["agree"],
                        "generic_where_fast_expected": sel["generic-where-fast-expected"][:20],
                        "n_generic_where_fast_expected": len(sel["generic-where-fast-expected"])}
     operands, ns = build_operands(tier, rng)
     tables = {b.name: ([], []) for b in builds if b.ok}
+    gridset = {v for _, v, _ in operands if type(v) is int}
     for s in sites:
         if s["mod"] not in tables:
             continue
@@ -132,53 +133,168 @@ def replay_real(tier, rng, rep, cov, sites=None, nmod=None, prefix="c02m"):
                 continue
             cl.append([s["fn"], [enc]])
             meta.append((s, enc, pv))
+        if s["ckind"] == "int":
+            # operands derived from the site's constant: same low digits with extra high digits, neighbours, negation
+            c = s["cv"][1]
+            for v in sorted({c, -c, c + 1, c - 1, c + 2 ** 30, c - 2 ** 30, c + 2 ** 60, c - 2 ** 60, -(c + 2 ** 60), c * 2 ** 30, c + 2 ** 90,
+                             2 ** 60 + c * 2 ** 30, c + 2 ** 59, c ^ (2 ** 61), -c - 2 ** 31} - gridset):
+                cl.append([s["fn"], [calls.ienc(v)]])
+                meta.append((s, calls.ienc(v), v))
 
     def runmod(name):
         return name, calls.run_calls(bymod[name], tables[name][0], prelude=L.PRELUDE, timeout=900)
     with concurrent.futures.ThreadPoolExecutor(max_workers=min(len(tables), 8) or 1) as ex:
         results = dict(ex.map(runmod, list(tables)))
+    global _WORK
+    _WORK = (tables, results, config)
+    names = list(tables)
+    import multiprocessing
+    if len(names) > 1:
+        with multiprocessing.get_context("fork").Pool(min(len(names), 8)) as pool:
+            parts = pool.map(_compare_module, names)
+    else:
+        parts = [_compare_module(n) for n in names]
     stats = {"calls": 0, "decided_by_spec": 0, "generic": 0, "undecided": 0, "paths": {}, "nontrivial": set(), "samples": []}
     hazards_seen = {}
-    for name, (cl, meta) in tables.items():
-        obs = results[name]
-        for (s, enc, pv), o in zip(meta, obs):
-            stats["calls"] += 1
-            xm = L.model_value(pv)
-            sref = L.ref(P, s, xm)
-            fres, path = L.fast(P, s, xm)
-            if s["ctx"] == "bool" and sref.startswith("b:"):
-                sref = "i:" + sref[2:]
-                if fres.startswith("b:"):
-                    fres = "i:" + fres[2:]
-            p = L.canon(L.py_eval(s, pv))
-            c = L.canon(o) if not (isinstance(o, str) and (o.startswith("CRASH") or o == "TIMEOUT")) else "o:" + json.dumps(o)
-            stats["paths"][s["family"] + "/" + path] = stats["paths"].get(s["family"] + "/" + path, 0) + 1
-            if sref == "g":
-                stats["generic"] += 1
-            elif sref == "u":
-                stats["undecided"] += 1
-            else:
-                stats["decided_by_spec"] += 1
-                if sref != p:
-                    rep.spec_drift("reference vs CPython", {"site": L.site_desc(s), "x": repr(pv)[:80], "spec": sref, "cpython": p})
-                    continue
-            if path not in ("generic",):
-                stats["nontrivial"].add((s["id"], path, xclass(pv), L.ndigits(P, pv) if type(pv) is int else 0))
-            if fres not in ("g", sref) and sref not in ("g", "u"):
-                hazards_seen.setdefault(s["family"] + "/" + path, [0, 0])[0] += 1
-            if c != p:
-                desc = dict(L.site_desc(s), path=path, xkind=xm[0] if xm[0] != "other" else type(pv).__name__, xclass=xclass(pv))
-                del desc["c"]
-                desc["czero"] = s["cv"][1] == 0 if s["ckind"] == "int" else L.is_zero(s["cv"][1])
-                oc = obs_class(p, c)
-                if fres not in ("g", sref) and sref not in ("g", "u") and (s["family"] + "/" + path) in hazards_seen:
-                    hazards_seen[s["family"] + "/" + path][1] += 1
-                rep.disagree(desc, oc, {"source": L.render(s, s["fn"]), "x": enc, "x_repr": repr(pv)[:80], "cpython": p, "compiled": c,
-                                        "spec": sref, "helpers": s.get("helpers")})
-            elif len(stats["samples"]) < 4 and path not in ("generic", "slot") and rng.random() < 0.001:
-                stats["samples"].append({"source": L.render(s, s["fn"]).strip(), "x": repr(pv)[:60], "expected": p, "path": path})
+    for st, hz, drifts, dis in parts:
+        for k in ("calls", "decided_by_spec", "generic", "undecided"):
+            stats[k] += st[k]
+        for k, v in st["paths"].items():
+            stats["paths"][k] = stats["paths"].get(k, 0) + v
+        stats["nontrivial"] |= st["nontrivial"]
+        stats["samples"] += st["samples"]
+        for k, v in hz.items():
+            a = hazards_seen.setdefault(k, [0, 0])
+            a[0] += v[0]
+            a[1] += v[1]
+        for what, detail in drifts:
+            rep.spec_drift(what, detail)
+        for desc, oc, detail in dis:
+            rep.disagree(desc, oc, detail)
+    stats["samples"] = stats["samples"][:4]
     stats["model_hazards_at_real_width"] = {k: {"cells": v[0], "confirmed_on_compiled_code": v[1]} for k, v in sorted(hazards_seen.items())}
     return sites, stats
+
+
+_WORK = None
+
+
+def _compare_module(name):
+    """S (mirror at the real parameters) / P (CPython) / C (compiled) for every call of one module; runs in a forked worker"""
+    tables, results, config = _WORK
+    P = L.REAL
+    cl, meta = tables[name]
+    obs = results[name]
+    rng = random.Random(len(cl))
+    stats = {"calls": 0, "decided_by_spec": 0, "generic": 0, "undecided": 0, "paths": {}, "nontrivial": set(), "samples": []}
+    hazards_seen, drifts, dis = {}, [], []
+    for (s, enc, pv), o in zip(meta, obs):
+        stats["calls"] += 1
+        if s["shape"] == "pyint":
+            pv = int(pv)
+        xm = L.model_value(pv)
+        sref = L.ref(P, s, xm)
+        fres, path = L.fast(P, s, xm)
+        if s["ctx"] == "bool" and sref.startswith("b:"):
+            sref = "i:" + sref[2:]
+            if fres.startswith("b:"):
+                fres = "i:" + fres[2:]
+        p = L.canon(L.py_eval(s, pv))
+        c = L.canon(o) if not (isinstance(o, str) and (o.startswith("CRASH") or o == "TIMEOUT")) else "o:" + json.dumps(o)
+        key = s["family"] + "/" + path
+        stats["paths"][key] = stats["paths"].get(key, 0) + 1
+        if sref == "g":
+            stats["generic"] += 1
+        elif sref == "u":
+            stats["undecided"] += 1
+        else:
+            stats["decided_by_spec"] += 1
+            if sref != p:
+                if len(drifts) < 20:
+                    drifts.append(("reference vs CPython", {"site": L.site_desc(s), "x": repr(pv)[:80], "spec": sref[:120], "cpython": p[:120]}))
+                continue
+        if path != "generic":
+            stats["nontrivial"].add((s["id"], path, xclass(pv), L.ndigits(P, pv) if type(pv) is int else 0))
+        hazard = fres not in ("g", sref) and sref not in ("g", "u")
+        if hazard:
+            hazards_seen.setdefault(key, [0, 0])[0] += 1
+        if c != p:
+            desc = dict(L.site_desc(s), path=path, xkind=xm[0] if xm[0] != "other" else type(pv).__name__, xclass=xclass(pv))
+            del desc["c"]
+            desc["czero"] = s["cv"][1] == 0 if s["ckind"] == "int" else L.is_zero(s["cv"][1])
+            desc["config"] = config
+            if hazard:
+                hazards_seen[key][1] += 1
+            dis.append((desc, obs_class(p, c), {"source": L.render(s, s["fn"]), "x": enc, "x_repr": repr(pv)[:80], "cpython": p[:200],
+                                                 "compiled": c[:200], "spec": sref[:200], "helpers": s.get("helpers"), "config": config}))
+        elif len(stats["samples"]) < 2 and path not in ("generic", "slot") and rng.random() < 0.001:
+            stats["samples"].append({"source": L.render(s, s["fn"]).strip(), "x": repr(pv)[:60], "expected": p[:80], "path": path})
+    return stats, hazards_seen, drifts, dis
+
+
+REQUIRED_PATHS = [   # vacuity guard on the model: every branch class of the transcription is inhabited
+    "PyLongBinop/zero", "PyLongBinop/and1", "PyLongBinop/long", "PyLongBinop/llong", "PyLongBinop/slot", "PyLongBinop/float",
+    "PyLongBinop/fallback", "PyLongBinop/generic",
+    "PyLongCompare/cmp-zero", "PyLongCompare/cmp-sign", "PyLongCompare/cmp-digits1", "PyLongCompare/cmp-digits2", "PyLongCompare/cmp-float",
+    "PyFloatBinop/fb-float", "PyFloatBinop/fb-zero", "PyFloatBinop/fb-compact", "PyFloatBinop/fb-join", "PyFloatBinop/fb-asdouble",
+    "PyFloatBinop/fb-richcmp", "PyFloatBinop/fb-rem-infdiv",
+    "PyNumberBinop/nb-ff", "PyNumberBinop/nb-xfloat", "PyNumberBinop/nb-xfloat-mul0", "PyNumberBinop/nb-xfloat-slot", "PyNumberBinop/nb-xint-float",
+    "PyNumberBinop/nb-ii-slot", "PyNumberBinop/nb-ii-zero1", "PyNumberBinop/nb-ii-zero2", "PyNumberBinop/nb-reverse",
+    "PyObjectCompare/oc-ii-tag", "PyObjectCompare/oc-ii-digits", "PyObjectCompare/oc-fi-sign", "PyObjectCompare/oc-fi-mag",
+    "PyObjectCompare/oc-fi-nonfinite", "PyObjectCompare/oc-richcmp", "generic/generic",
+]
+
+
+def model_part(tier, rep, cov):
+    """TLC on the scaled instance(s); the Python mirror is validated against every published cell"""
+    cfgs = ["PyLongArith_q3"] if tier == "quick" else ["PyLongArith_t3", "PyLongArith_t4"]
+    states = trans = ncells_all = 0
+    declared = set()
+    for cfgn in cfgs:
+        t = core.tlc_or_die("PyLongArith", cfg=cfgn, timeout=3000)
+        cfg = L.read_cfg(os.path.join(core.SPEC, cfgn + ".cfg"))
+        declared |= set(cfg["DeclaredHazards"])
+        if len(t.printed) != t.distinct or not t.printed:
+            core.die("PyLongArith/%s: %d rows published for %d states" % (cfgn, len(t.printed), t.distinct))
+        ncells, diffs, paths, hazards = L.validate_rows(cfg, t.printed)
+        for d in diffs:
+            rep.spec_drift("PyLongArith.tla vs its Python mirror (%s)" % cfgn, d)
+        missing = [p for p in REQUIRED_PATHS if not paths.get(p)]
+        if missing:
+            core.die("PyLongArith/%s: vacuous model, no cell on paths %s" % (cfgn, missing))
+        stale = [h for h in cfg["DeclaredHazards"] if not hazards.get(h)]
+        if stale or set(hazards) - set(cfg["DeclaredHazards"]):
+            core.die("PyLongArith/%s: declared hazards %s / model hazards %s" % (cfgn, cfg["DeclaredHazards"], hazards))
+        states += t.distinct
+        trans += t.generated
+        ncells_all += ncells
+        cov["tlc"].append(dict(t.summary(), config="%s: SHIFT=%d LONG=%d LLONG=%d CBITS=%d MANT=%d EMAX=%d, |x|<=%d + bools/floats/other, %d sites" % (
+            cfgn, cfg["SHIFT"], cfg["LONG"], cfg["LLONG"], cfg["CBITS"], cfg["MANT"], cfg["EMAX"], cfg["XMAX"],
+            len({(r["op"], r["order"], r["c"]) for r in t.printed})),
+            cells=ncells, cells_per_path=paths, hazard_cells=hazards,
+            invariants=["Agree", "UndecidedIsGeneric", "NoUB", "TypeGuard", "BoolGuard"]))
+    # the same model with one declared hazard removed: TLC must find that defect of the transcribed algorithm by itself
+    for cfgn, missing in (("PyLongArith_strict_a", "PyFloatBinop/fb-rem-infdiv"), ("PyLongArith_strict_b", "PyNumberBinop/nb-xfloat-mul0")):
+        ts = core.tlc("PyLongArith", cfg=cfgn, timeout=3000)
+        if ts.violation != "Agree":
+            core.die("%s: expected a violation of Agree, got %r\n%s" % (cfgn, ts.violation, ts.out[-1500:]))
+        cov["tlc"].append(dict(ts.summary(), config="%s: %s not declared -> invariant Agree violated, as expected" % (cfgn, missing)))
+    cov.update({"states": states, "distinct_states": states, "transitions": trans, "cells_checked_against_mirror": ncells_all,
+                "declared_model_hazards": sorted(declared)})
+    return declared
+
+
+def self_test():
+    """binding demonstration: corrupted observations must be rejected by the comparison"""
+    bad = 0
+    for want, got in (("f:fin:-:0:0", "f:fin:+:0:0"), ("i:1073741824", "i:1073741825"), ("b:1", "i:1"), ("e:ZeroDivisionError", "f:inf:+"),
+                      ("f:fin:+:1:0", "f:nan"), ("i:5", "o:\"CRASH:11\"")):
+        if want == got or obs_class(want, got) in ("", None):
+            bad += 1
+    if L.canon(["f", "-0x0.0p+0"]) == L.canon(["f", "0x0.0p+0"]) or L.canon(["bool", True]) == L.canon(1) or L.canon({"big": str(2 ** 64)}) != "i:%d" % 2 ** 64:
+        bad += 1
+    if bad:
+        core.die("binding self-test failed")
 
 
 def run(tier, seed):
@@ -186,8 +302,43 @@ def run(tier, seed):
     rng = random.Random(seed)
     rep = core.Reporter(PROP)
     cov = {"tlc": []}
+    self_test()
+    declared = model_part(tier, rep, cov)
     sites, stats = replay_real(tier, rng, rep, cov)
-    print(json.dumps({k: v for k, v in stats.items() if k not in ("nontrivial", "samples")}, indent=1)[:3000])
-    print(json.dumps(cov["selection"], indent=1)[:3000])
+    total_calls = stats["calls"]
+    nontrivial = set(stats["nontrivial"])
+    configs = ["default"]
+    if tier != "quick":
+        # the same sites with the digit-level fast paths compiled out: the helpers take their portable branches
+        cov2 = {}
+        sub = [s for s in L.real_sites("quick")]
+        _, st2 = replay_real("quick", rng, rep, cov2, sites=sub, nmod=4, prefix="c02n", cflags=["-DCYTHON_USE_PYLONG_INTERNALS=0"], config="nointernals")
+        total_calls += st2["calls"]
+        cov["selection_nointernals"] = cov2.get("selection")
+        configs.append("nointernals (-DCYTHON_USE_PYLONG_INTERNALS=0)")
+    # every hazard class the model declares should show up on the real code (reported, never fails the run)
+    real_h = stats["model_hazards_at_real_width"]
+    cov["model_hazards_on_real_code"] = {h: real_h.get(h, {"cells": 0, "confirmed_on_compiled_code": 0}) for h in sorted(declared)}
+    cov.update({
+        "traces_validated_against_impl": total_calls, "evaluations": total_calls,
+        "distinct_nontrivial": len(nontrivial),
+        "exhaustive": True,
+        "real_cells": {k: stats[k] for k in ("calls", "decided_by_spec", "generic", "undecided")},
+        "real_cells_per_path": dict(sorted(stats["paths"].items())),
+        "sites": len(sites), "build_configs": configs,
+        "rule": "model: every site (op x order x constant) x every operand of the scaled instance (all ints |x| <= XMAX, bools, floats, "
+                "other); real: one compiled function per site (op x order x constant x in-place x value/bool context x untyped/known-int) "
+                "called on digit-boundary ints up to 2^1100, floats (signed zeros, inf, nan, subnormal), bools, int/float subclasses, "
+                "other objects; non-trivial = distinct (site, fast-path class, operand class, digit count) served by a non-generic path",
+        "samples": stats["samples"][:4] or [{"source": L.render(sites[0], sites[0]["fn"]).strip()}],
+    })
     rc = rep.finish()
+    cov["known_findings"] = rep.kf_summary()
+    core.write_evidence(PROP, tier, seed, "model_checking", cov, time.time() - t0,
+                        assumptions=["real-width expectations come from the Python mirror of PyLongArith.tla, validated cell by cell against TLC on the scaled instance(s)",
+                                     "float results outside the normal range (subnormals) and float // are not decided by the spec: compiled code is compared with CPython only",
+                                     "64-bit long == long long (LP64); the LLP64 split (32-bit long) is modelled by the LONG/LLONG constants but not instantiated",
+                                     "operands of other types are opaque in the model (delegation to the generic protocol); on real code they are compared with CPython",
+                                     "c << x and c >> x with a constant left operand are not optimised and unbounded: not generated"],
+                        violations=rep.n_violations())
     return rc
